@@ -339,6 +339,15 @@ def run(ctx, prop):
             msg = row["panic"].split("\n")[0]
             key = "%s panics: %s" % (row["ev"], " ".join(w for w in msg.split() if not w.isdigit()))
             desc = "real %s panicked (%s) after: %s" % (row["ev"], msg, short_ops(ops))
+        elif row.get("stale"):
+            who = "C05"
+            import re
+            d0 = row["stale"][0].replace("changed without a checkpoint: ", "")
+            first_diff = re.sub(r"\[\d+\]", "[]", d0.split(":")[0])
+            key = "checkpoint stale after %s(%s) at %s" % (row["ev"], ",".join("%s=%s" % (k, "0" if row["args"][k] == 0 else "x")
+                                                           for k in sorted(row["args"]) if k in ("when", "v")), first_diff)
+            desc = ("%s changed the state but the checkpoint the backend received last does not have it (state not marked modified?): "
+                    "live vs ReadState(last checkpoint): %s; ops: %s" % (row["ev"], "; ".join(row["stale"][:4]), short_ops(ops)))
         elif row["ev"] == "SaveReload" and not row["ret"].get("same", True):
             who = "C05"
             diffs = row["ret"].get("diffs") or [row["ret"].get("err", "?")]
@@ -357,7 +366,8 @@ def run(ctx, prop):
         # a deviation that only shows at a later step of a case that pruned before may stem from hidden state
         # either op left behind (expired notices kept in memory, last recorded notice status): both checks report it
         pruned_before = any(r["ev"] == "Prune" and r["i"] < row["i"] for r in case_rows)
-        mine = who == prop or (pruned_before and row["ev"] not in ("Prune", "SaveReload") and not row["panic"] and not inv)
+        mine = who == prop or (pruned_before and row["ev"] not in ("Prune", "SaveReload") and not row["panic"] and not inv
+                               and not row.get("stale"))
         (violations if mine else other).append(v)
     for r in probe_rows:
         if r["panic"]:
